@@ -516,7 +516,10 @@ func c03Continue(m *Sim, p *scripted, spec *c03Spec, honestBefore map[uint16]int
 		m.Failf("hostile.continue", "after the hostile packets the endpoint never drains: buffered=%d snapshot %s", bufAmt(a), snapAssoc(a))
 		return
 	}
-	// a fresh honest exchange in both directions on new streams
+	// a fresh honest exchange in both directions on new streams (the hostile packets may have
+	// completed the handshake themselves, with other parameters than the scripted peer offered:
+	// the honest peer frames its data as that handshake negotiated)
+	p.il = a.useInterleaving
 	if p.fillGaps(62) {
 		rs := p.startReader(60)
 		if rs == nil {
@@ -705,7 +708,7 @@ func propC03(j *Job) {
 	}
 	n := 0
 	for _, b := range bases {
-		if !(len(b.name) > 3 && b.name[:3] == "est") {
+		if !(len(b.name) > 3 && b.name[:3] == "est") && !j.Thorough() {
 			continue
 		}
 		for i := 0; i < nAlpha; i++ {
